@@ -42,8 +42,14 @@ ensures
     all_canonical(cells@) && res is Ok ==> (forall|y: A5Cell| valid(y) && max_res_le(cells@, y.resolution as int)
         ==> (covers(res->Ok_0@, y) <==> covers(cells@, y))),                                                       // [C08:compact.cover-preserved]
     all_canonical(cells@) && antichain_set(cells@) && res is Ok ==> antichain(res->Ok_0@) && res->Ok_0@.no_duplicates(),   // [C08:compact.no-duplicates]
+    all_canonical(cells@) && antichain_set(cells@) && max_class(cells@) && res is Ok ==> maximal(res->Ok_0@),     // [C10:compact.maximal]
+    res is Ok ==> no_merge_possible(res->Ok_0@),                                                                   // [C10:compact.fixed-point]
 //@at entry
 hide(enc); hide(dec); hide(decodable); hide(probe); hide(kids_ids); hide(valid); hide(is_desc); hide(anc);
+//@at before-return 1
+proof {
+    lemma_empty_maximal();
+}
 //@at after "std_sort_unstable(&mut current_cells);"
 let ghost init = current_cells@;
 proof {
@@ -58,12 +64,17 @@ proof {
     if all_canonical(cells@) {
         lemma_initial_list(cells@, init);
         lemma_refines_refl(init);
+        if antichain_set(cells@) && max_class(cells@) {
+            lemma_max_class_list(cells@, init);
+            lemma_initial_ordered(init);
+        }
     }
 }
 //@loop 1
 invariant
     current_cells@.len() <= 0x0fffffffffffffff, // [C14:compact.length-bound]
     all_canonical(cells@) ==> refines(current_cells@, init),   // [C08:compact.pass-keeps-region]
+    !changed ==> no_merge_possible(current_cells@),            // [C10:compact.last-pass-found-nothing]
 decreases current_cells@.len(), (if changed { 1int } else { 0int }),
 //@at after-let i
 proof {
@@ -75,6 +86,8 @@ invariant
     i <= current_cells@.len(),                  // [C14:compact.scan-in-bounds]
     result@.len() <= i,                         // [C14:compact.pass-does-not-grow]
     changed ==> result@.len() < i,              // [C14:compact.progress-when-changed]
+    !changed ==> result@ == current_cells@.subrange(0, i as int),                                   // [C10:compact.unchanged-prefix]
+    !changed ==> (forall|a: int| 0 <= a < i ==> !merge_test(current_cells@, a)),                     // [C10:compact.no-merge-so-far]
     all_canonical(cells@) ==> refines(comb(result@, current_cells@, i as int), current_cells@),   // [C08:compact.scan-keeps-region]
 decreases current_cells@.len() - i,
 //@at loop 2 body-start
@@ -86,6 +99,7 @@ proof {
 invariant
     1 <= j <= expected_children,
     has_all_siblings ==> (forall|jj: int| 1 <= jj < j ==> #[trigger] current_cells@[i + jj] == cell + jj * stride),   // [C08:compact.sibling-test]
+    !has_all_siblings ==> !merge_test(current_cells@, i as int),                                                     // [C10:compact.test-failed]
 //@at loop 3 body-start
 proof {
     lemma_stride_bound(resolution as int);
@@ -107,14 +121,28 @@ proof {
         lemma_comb_merge(result@, current_cells@, i as int, cell, parent);
     }
 }
+//@at before "result.push(cell);" #1
+proof {
+    assert(!merge_test(current_cells@, i as int));
+    assert(current_cells@.subrange(0, i as int).push(current_cells@[i as int]) =~= current_cells@.subrange(0, i as int + 1));
+}
+//@at before "result.push(cell);" #2
+proof {
+    assert(!merge_test(current_cells@, i as int));
+    assert(current_cells@.subrange(0, i as int).push(current_cells@[i as int]) =~= current_cells@.subrange(0, i as int + 1));
+}
 //@at before "current_cells = result;"
 proof {
+    assert(current_cells@.subrange(0, current_cells@.len() as int) =~= current_cells@);
     lemma_comb_end(result@, current_cells@);
     if all_canonical(cells@) { lemma_refines_trans(result@, current_cells@, init); }
 }
 //@at before-tail
 proof {
-    if all_canonical(cells@) { lemma_compact_final(cells@, init, current_cells@); }
+    if all_canonical(cells@) {
+        lemma_compact_final(cells@, init, current_cells@);
+        if antichain_set(cells@) && max_class(cells@) { lemma_maximal(current_cells@); }
+    }
 }
 //@end
 
